@@ -138,7 +138,7 @@ class DictDecoder:
                     raise ParserError(f"Unknown property {clazz.__qualname__}.{key}")
                 continue
 
-            if var.wrapper:
+            if var.wrapper and key == var.wrapper:
                 value = value[var.local_name]
 
             value = self.bind_value(meta, var, value)
